@@ -515,6 +515,8 @@ def run(chk):
                            "C05_stable_sort_unique shows this determines the list uniquely, and the oracle re-sorts with its own insertion sort")
     chk.assumptions.append('random_order: random.random() is treated as an arbitrary stream (the theorems quantify over every stateful key); '
                            'the correspondence run feeds the recorded stream to the model')
+    from harness import c20
+    c20.run_family(chk, 'layout', 400 if chk.tier == 'quick' else 4000)   # observed at penman --rearrange / --reconfigure
     chk.notes.append('C05_reconfigure_content / retop content (content preservation of configure on marker-free graphs) is NOT a theorem '
                      'of this property file: it is the subject of C03/C06 (Proofs/Configure_content.v); here it is covered by the oracle only')
 
